@@ -99,6 +99,10 @@ class CollectionStore(object):
         del self.indexes[index_name]
         self._ttl_indexes.pop(index_name, None)
 
+    def drop_indexes(self):
+        self.indexes = {}
+        self._ttl_indexes = {}
+
     @property
     def is_empty(self):
         self._remove_expired_documents()
